@@ -310,6 +310,22 @@ class ReachingDefsAnalysis:
 _DefCtx: TypeAlias = dict[NamedId, int]
 """visitor context: mapping from variable name to definition index"""
 
+
+def _always_returns(block: StmtBlock) -> bool:
+    """Whether every path through `block` ends in a `return`."""
+    if not block.stmts:
+        return False
+    match block.stmts[-1]:
+        case ReturnStmt():
+            return True
+        case IfStmt():
+            last = block.stmts[-1]
+            return _always_returns(last.ift) and _always_returns(last.iff)
+        case ContextStmt():
+            return _always_returns(block.stmts[-1].body)
+        case _:
+            return False
+
 class _ReachingDefs(DefaultVisitor):
     """Visitor for reaching definitions analysis."""
 
@@ -424,6 +440,14 @@ class _ReachingDefs(DefaultVisitor):
         # visit both true and false branches
         ift_out = self._visit_block(stmt.ift, ctx)
         iff_out = self._visit_block(stmt.iff, ctx)
+        # a branch that always returns never reaches the join, so the other
+        # branch alone decides what is defined after the statement (the
+        # syntax checker accepts a use of a name only that branch introduces)
+        ift_returns = _always_returns(stmt.ift)
+        iff_returns = _always_returns(stmt.iff)
+        if ift_returns != iff_returns:
+            self.phis[stmt] = {}
+            return iff_out if ift_returns else ift_out
         # introduce phi nodes for:
         # (i) redefinitions in the branches
         # (ii) introductions in both branches
